@@ -163,13 +163,28 @@ def check(case):
     if len(rep['objects']) != len(topo.objs) or len(rep['geometry']) != len(topo.objs):
         fails.append(('structure:object-count', '%d object blocks for %d objects' % (len(rep['objects']), len(topo.objs))))
     else:
-        for o, po, pg, ref in zip(topo.objs, rep['objects'], rep['geometry'], topo.per_obj):
+        for w_, (o, po, pg, ref) in enumerate(zip(topo.objs, rep['objects'], rep['geometry'], topo.per_obj)):
             for i in range(3):
                 cmpv('object:end1', po['p1'][i], o['segs'][0][i], True)
                 cmpv('object:end2', po['p2'][i], o['segs'][-1][i], True)
             cmpv('object:radius', po['radius'], o['obj']['r'] * (o['r'] / o['obj']['r']), True)
             if po['nseg'] != len(o['segs']) - 1:
                 fails.append(('object:segments', 'prints %d segments for %d' % (po['nseg'], len(o['segs']) - 1)))
+            # END CONNECTION column: minus the object's own tag for an end on the ground plane, 0 for a free end and
+            # for the earliest object of a junction, otherwise the tag of the earliest object of the junction, negative
+            # if the two objects meet with like ends
+            for e_, key_ in ((0, 'conn1'), (1, 'conn2')):
+                if (w_, e_) in topo.grounded:
+                    want_c = -o['tag']
+                else:
+                    j_ = topo.junctions[topo.junc_of[(w_, e_)]]
+                    if [x[0] for x in j_].count(w_) > 1:
+                        continue                      # an object closed on itself
+                    first_ = j_[0]
+                    want_c = 0 if (len(j_) == 1 or first_[0] == w_) else topo.objs[first_[0]]['tag'] * (-1 if first_[1] == e_ else 1)
+                if po[key_] != want_c:
+                    fails.append(('object:end-connection', 'object tag %d end %d: END CONNECTION prints %d, expected %d'
+                                  % (o['tag'], e_ + 1, po[key_], want_c)))
             if len(pg['rows']) != len(ref):
                 fails.append(('structure:geometry-rows', 'tag %d: %d geometry rows for %d pulses' % (pg['tag'], len(pg['rows']), len(ref))))
                 continue
